@@ -263,7 +263,19 @@ pub fn write_evidence(prop: &PropSpec, seed: u64, thorough: bool, res: &RunResul
             "command_results": s.results,
             "truncated_by_wall_clock_cap": s.truncated,
             "engine": "E1: shuttle 0.9.3 with harness-owned recording scheduler (uniform random, sticky random, PCT depth 1-6, round-robin)",
-            "real_code": ["nexosim: Simulation, SimInit, Scheduler, both executors, task state machine, mailbox channel and queue, ports/broadcasters, sinks, seqlock time cell", "st3", "diatomic-waker", "multishot", "async-event (logic)", "recycle-box", "slab"],
+            "real_code": match prop.id {
+                "C12" => vec!["nexosim::channel::queue::Queue (through verif::exports::VQueue)", "nexosim::channel::{Sender, Receiver} with a real Context (VSender / VReceiver)", "async-event (logic)", "diatomic-waker", "recycle-box"],
+                "C13" => vec!["nexosim::executor::task::{spawn, spawn_and_forget, Runnable, Promise, CancelToken, wakers} (through verif::exports)"],
+                "C15" => vec!["nexosim::util::sync_cell::SyncCell<TearableAtomicTime> and its readers (through verif::exports::VTimeCell)"],
+                _ => vec!["nexosim: Simulation, SimInit, Scheduler, both executors, task state machine, mailbox channel and queue, ports/broadcasters, sinks, seqlock time cell", "st3", "diatomic-waker", "multishot", "async-event (logic)", "recycle-box", "slab"],
+            },
+            "harness_stubs": match prop.id {
+                "C12" => vec!["producer / consumer threads and a minimal block_on executor (harness)", "the model on the receiving end stores the last value (VModel)"],
+                "C13" => vec!["the future under test, the run queue and the scheduling function are harness code"],
+                "C15" => vec!["writer and reader threads, the release/acquire publication counter (harness)"],
+                "C14" => vec!["15 % of the cases: owner future mirroring BroadcastFuture::poll and waker threads around the real TaskSet (harness)"],
+                _ => vec!["scripted models (Node), driver script, scripted clock (harness)"],
+            },
             "substituted": ["std::sync/std::thread/thread_local -> shuttle (scheduling points)", "parking::Parker -> token parker on simulated Mutex+Condvar", "async-event's mutex/atomics -> shuttle via loom facade", "worker search timer -> round counter knob", "mailbox identity (heap address) -> simulator-chosen ids", "Clock -> scripted recording clock"],
         },
         "assumptions": [
